@@ -946,6 +946,27 @@ def _m_abs(I, b, a, kw, node):
     return mk(z3.If(t >= 0, t, -t), k)
 
 
+@ext("builtins.round")
+def _m_round(I, b, a, kw, node):
+    """round(x[, nd]): the result times 10**nd is an integer within 1/2 of x * 10**nd (both tie directions allowed:
+    an over-approximation of banker's rounding on mathematical reals)"""
+    v = a[0]
+    nd = a[1] if len(a) > 1 else kw.get("ndigits")
+    if nd is not None and not isinstance(nd, int):
+        raise EngineLimit("round with symbolic ndigits")
+    if not is_sym(v):
+        return round(v) if nd is None else round(v, nd)
+    if v.ty == "int" and (nd is None or nd >= 0):
+        return v
+    scale = 10 ** (nd or 0)
+    k = I.ctx.fresh("round_k", z3.IntSort())
+    x = rval(v) * scale
+    I.ctx.assume(z3.And(z3.ToReal(k) - x <= z3.RealVal("1/2"), x - z3.ToReal(k) <= z3.RealVal("1/2")))
+    if nd is None:
+        return mk(k, "int")
+    return mk(z3.ToReal(k) / scale, "real")
+
+
 @ext("builtins.sum")
 def _m_sum(I, b, a, kw, node):
     tot = a[1] if len(a) > 1 else 0
